@@ -130,7 +130,7 @@ theorem runLog_fresh (strict : Bool) (kind : OpKind) (ik ihash sv : String) (n :
 
 /-- Every write operation — failing, dry-run, idempotent, faulted or committed —
     preserves the invariant. -/
-theorem forgeLog_inv (strict : Bool) (op : Op) (f : Option Fault) (cf : Bool) (s : State) (h : Inv s.db s.seq) :
+theorem forgeLog_inv (strict : Bool) (op : Op) (f : Faults) (cf : Bool) (s : State) (h : Inv s.db s.seq) :
     Inv (forgeLog strict op f cf s).state.db (forgeLog strict op f cf s).state.seq := by
   rcases forgeLog_ending strict op f cf s with ⟨hu, hs, _⟩ | ⟨st0, st, log, hn, f', n, _, h0, hs0, hrun, hc⟩
   · rw [hu]; exact h.seq_mono hs
@@ -141,7 +141,7 @@ theorem forgeLog_inv (strict : Bool) (op : Op) (f : Option Fault) (cf : Bool) (s
     exact this
 
 theorem step_inv (strict : Bool) (s : State) (op : Op) (h : Inv s.db s.seq) :
-    Inv (step strict s op).1.db (step strict s op).1.seq := forgeLog_inv strict op none false s h
+    Inv (step strict s op).1.db (step strict s op).1.seq := forgeLog_inv strict op [] false s h
 
 theorem runHist_inv (strict : Bool) (s : State) (ops : List Op) (h : Inv s.db s.seq) :
     Inv (runHist strict s ops).db (runHist strict s ops).seq := by
